@@ -466,10 +466,31 @@ def rstep (s : St) (t : Nat) (flag : Flag) : Option (St × List String) :=
     some (r.1, s!"T{t} mtx-unlock rmutex" :: r.2)
   | _ => none
 
-def step (s : St) (tok : Tok) : Option (St × List String) :=
+/-- a regular step (everything except the interrupted futex wait) -/
+def stepMain (s : St) (tok : Tok) : Option (St × List String) :=
   if !s.enabled tok then none
   else if tok.tid < s.cfg.W then wstep s tok.tid
   else rstep s tok.tid tok.flag
+
+/-- pcs parked in `futex_wait` -/
+def isFutexParked : Pc → Bool
+  | .rBlocked _ | .wBlocked => true
+  | _ => false
+
+/-- schedule flag `~` on a thread parked in a futex: `futex_wait` returns -1/EINTR although nobody
+woke it (a signal without SA_RESTART — legal Linux behaviour). `muggle_sync_wait`'s result is
+ignored by `channel.c` and `synclock.c`: the reader goes round its loop and re-loads
+`write_cursor`; the writer goes round the lock loop and retries its compare-exchange. -/
+def spurStep (s : St) (t : Nat) : Option (St × List String) :=
+  match s.pc t with
+  | .rBlocked rpos =>
+    some ({ s with pc := upd s.pc t (.rLdW rpos) }, [s!"T{t} futex-resume write_cursor spurious"])
+  | .wBlocked => some ({ s with pc := upd s.pc t .wLock }, [s!"T{t} futex-resume wlock spurious"])
+  | _ => none
+
+def step (s : St) (tok : Tok) : Option (St × List String) :=
+  if tok.flag = .wake ∧ tok.tid ≤ s.cfg.W ∧ isFutexParked (s.pc tok.tid) = true then spurStep s tok.tid
+  else stepMain s tok
 
 /-! ## what the harness reports at the end -/
 
